@@ -10,6 +10,7 @@ from vmc.core.report import Report
 
 PROP = "C18"
 ALPHABET = ['"', "'", "\\", "\n", "(", ")", "[", "]", "{", "}", "^", "`", ":", ";", ",", "=", ".", "a", "_", "0", "@", "|",
+            "é",        # a character outside the 256-character code page (no digit value in any compression alphabet)
             "x", "N",   # with the backslash: Python escape sequences that need more characters (\\x.., \\N{..})
             "²", "₁"]   # code-page characters that str.isnumeric() / \\w accept but Python identifiers and int() do not
 SANCTIONED = re.compile(r"^(VAR_|_lambda_)[A-Za-z0-9_]*$")
@@ -111,6 +112,13 @@ def vocabulary():
 class Eraser(ast.NodeTransformer):
     def visit_Constant(self, node):
         return ast.copy_location(ast.Constant(value="C"), node)
+
+    def visit_UnaryOp(self, node):
+        # a negative number constant is written -<constant> in the Python AST: still a constant (`»é»` lowers to stack.append(-1))
+        if isinstance(node.op, (ast.USub, ast.UAdd)) and isinstance(node.operand, ast.Constant) and isinstance(node.operand.value, (int, float, complex)):
+            return ast.copy_location(ast.Constant(value="C"), node)
+        self.generic_visit(node)
+        return node
 
     def visit_Name(self, node):
         if SANCTIONED.match(node.id):
